@@ -9,7 +9,7 @@ def run(tier, seed, jobs):
     bound = 1 if tier == "quick" else 2
     configs = [dict(threads={"bound": bound, "mode": "portal"}, eager=False, salt=1)]
     cov, viol, harness = run_family(FAMILY, tier, configs, jobs,
-                                    max_execs=800 if tier == "quick" else 100000, seed=seed)
+                                    max_execs=800 if tier == "quick" else 4000, seed=seed)
     cov["preemption_bound"] = bound
     cov["rule"] = (
         "scenarios: start_blocking_portal() from a controlled main thread plus 2 caller threads, "
